@@ -1,7 +1,7 @@
 """C13 scraper for the C backend: __attribute__((__import_module__("m"), __import_name__("n"))) /
 __attribute__((__export_name__("n"))) followed by a prototype or definition."""
 import re
-from c13_common import mk, line_of, count_word, text_files, split_params
+from c13_common import mk, line_of, word_counts, text_files, split_params, mark_referenced
 
 I32 = {"int32_t", "uint32_t", "size_t", "bool", "int8_t", "uint8_t", "int16_t", "uint16_t", "char", "int", "unsigned",
        "uintptr_t", "intptr_t"}
@@ -67,7 +67,7 @@ def scrape(files):
         for m in TYPEDEF_ENUM.finditer(t):
             typedefs[m.group(1)] = "int32_t"
     out = []
-    texts = list(srcs.values())
+    wc = word_counts(srcs.values())
     for fn, t in srcs.items():
         for m in ATTR.finditer(t):
             attr = m.group("attr")
@@ -81,8 +81,8 @@ def scrape(files):
             if ne:
                 out.append(mk("E", "", ne.group(1), sig, name or "?", fn, ln))
             elif mi and ni:
-                ref = name is not None and count_word(name, texts) > 1
-                out.append(mk("I", mi.group(1), ni.group(1), sig, name or "?", fn, ln, ref))
+                out.append(mk("I", mi.group(1), ni.group(1), sig, name or "?", fn, ln))
+                out[-1]["_scope"] = 0
             else:
                 out.append(mk("I", mi.group(1) if mi else "?", ni.group(1) if ni else "?", "?", name or "?", fn, ln))
-    return out
+    return mark_referenced(out, {0: wc})
